@@ -11,7 +11,7 @@ from mc import core, fixtures as fx, rthist
 from mc.ref import rt, opac
 
 ID = 'C01'
-RULE = ('two phases.  histories: one live model, every sequence of parameter updates (22 letters over 11 fitted / '
+RULE = ('two phases.  histories: one live model, every sequence of parameter updates (23 letters over 12 fitted / '
         'star parameters) up to depth 2 (thorough 3), depth 3 (4) over a 7-letter sub-alphabet, evaluated after every '
         'update and compared with a fresh model holding the net settings.  inputs: cases = full product of the core dimensions (layers x opacity magnitude x contribution subset x '
         'path method) plus every case with <= 2 deviations from the default letter over all 10 dimensions '
@@ -283,7 +283,10 @@ HIST_ALPHABET = [['T', 800.0], ['T', 1800.0], ['planet_radius', 0.8], ['planet_r
                  ['clouds_pressure', 3e4], ['flat_mix_ratio', 1e-33], ['flat_mix_ratio', 1e-29],
                  ['lee_mie_mix_ratio', 1e-16], ['lee_mie_mix_ratio', 1e-9], ['star_radius', 4e8],
                  # mass and radius written together to a pair with the surface gravity of the start
-                 ['__multi__', [['planet_mass', 4.0], ['planet_radius', 2.0]]]]
+                 ['__multi__', [['planet_mass', 4.0], ['planet_radius', 2.0]]],
+                 # the atmosphere becomes pure sodium vapour (no opacity, no scattering data): every species that
+                 # absorbs or scatters is at exactly zero abundance - sources that had components now have none
+                 ['__multi__', [['H2O', 0.0], ['CH4', 0.0], ['Na', 1.0]]]]
 # requested spectral windows of equal length at both ends of the native grid, and the full grid again
 HIST_ALPHABET += [['__window__', [1000.0, 2000.0]], ['__window__', [3000.0, 4000.0]], ['__window__', None]]
 HIST_REDUCED = [['T', 800.0], ['T', 1800.0], ['planet_mass', 0.5], ['clouds_pressure', 1e2], ['clouds_pressure', 3e4],
@@ -307,7 +310,7 @@ def hist_build(case):
         lay = np.sqrt(lev[:-1] * lev[1:])
         T = ['npoint', float(np.sqrt(lay[-1] * lay[-2]))]
     spec = {'kind': 'transmission', 'N': case['N'], 'T': T, 'path': case['path'],
-            'gases': [['H2O', ['const', 1e-4]], ['CH4', ['const', 3e-5]]],
+            'gases': [['H2O', ['const', 1e-4]], ['CH4', ['const', 3e-5]], ['Na', ['const', 1e-6]]],
             'contribs': ['abs', ['cia', ['H2-H2', 'H2-He']], 'ray', ['clouds', 1e3],
                          ['flat', {'flat_mix_ratio': 1e-31, 'flat_topP': 3e0, 'flat_bottomP': 2e4}],
                          ['lee', {'lee_mie_mix_ratio': 1e-12, 'lee_mie_radius': 0.05, 'lee_mie_q': 40}]]}
@@ -316,7 +319,7 @@ def hist_build(case):
 
 def hist_fn(case):
     r = core.R(case)
-    rthist.run_history(r, case['hist'], lambda: hist_build(case), 'transmission/' + case['path'])
+    rthist.run_history(r, case['hist'], lambda: hist_build(case), 'transmission/' + case['path'], as_numpy=bool(case.get('np')))
     return r
 
 
@@ -347,6 +350,8 @@ def explore(ctx):
     hcases += [{'N': n, 'path': pth, 'T': 'npoint', 'hist': h} for (n, pth) in cfgs[:2] for h in hn]
     ctx.bounds.update(history_depth_full_alphabet=2 if ctx.tier == 'quick' else 3,
                       history_depth_reduced_alphabet=3 if ctx.tier == 'quick' else 4, histories=len(hcases))
+    # every single update once more with the value handed over as a numpy float64 scalar
+    hcases += [dict(c_, np=True) for c_ in hcases if len(c_['hist']) == 1]
     ctx.run_cases('hist_fn', hcases, phase='histories')
     inv = [{'N': n, 'ntop': t, 'path': pth, 'second': sec} for n in (3, 4, 5, 7) for t in (1, 2) if t < n
            for pth in ('old', 'new') for sec in ('flat', 'lee', 'ray', 'cia')]
